@@ -811,3 +811,302 @@ func (ix *PkgIndex) workFunc(fn *FuncInfo, pred func(ast.Node) bool) (work *Func
 		return nil
 	}
 }
+
+// delegateUnder: when fn's body is the single statement `return h(args…)` (or the bare call) to a declared function h of the
+// package, rules about fn are judged on h instead, restricted to the part of h that is reachable when the parameters that
+// receive compile-time constants at that call hold those constants (a shared implementation selected by a mode argument).
+// live(n) tells whether statement n of h is reachable under those facts. Otherwise it returns fn and a predicate that is true.
+func (ix *PkgIndex) delegateUnder(fn *FuncInfo) (work *FuncInfo, live func(ast.Node) bool) {
+	all := func(ast.Node) bool { return true }
+	if fn == nil || fn.Lit != nil || fn.Body() == nil || len(fn.Body().List) != 1 {
+		return fn, all
+	}
+	info := fn.Info()
+	var call *ast.CallExpr
+	switch s := fn.Body().List[0].(type) {
+	case *ast.ReturnStmt:
+		if len(s.Results) == 1 {
+			call, _ = unparen(s.Results[0]).(*ast.CallExpr)
+		}
+	case *ast.ExprStmt:
+		call, _ = unparen(s.X).(*ast.CallExpr)
+	}
+	if call == nil || call.Ellipsis.IsValid() {
+		return fn, all
+	}
+	h := ix.declByObj(callee(info, call))
+	if h == nil || h == fn || h.Body() == nil {
+		return fn, all
+	}
+	ps := h.Obj.Type().(*types.Signature).Params()
+	consts := map[types.Object]constant.Value{}
+	for i, a := range call.Args {
+		if i >= ps.Len() {
+			break
+		}
+		if tv, ok := info.Types[a]; ok && tv.Value != nil {
+			consts[ps.At(i)] = tv.Value
+		}
+	}
+	// a parameter that is written or whose address is taken in h does not keep its constant
+	hinfo := h.Info()
+	ast.Inspect(h.Body(), func(n ast.Node) bool {
+		switch s := n.(type) {
+		case *ast.AssignStmt:
+			for _, l := range s.Lhs {
+				delete(consts, objOf(hinfo, l))
+			}
+		case *ast.IncDecStmt:
+			delete(consts, objOf(hinfo, s.X))
+		case *ast.UnaryExpr:
+			if s.Op == token.AND {
+				delete(consts, objOf(hinfo, s.X))
+			}
+		case *ast.RangeStmt:
+			for _, e := range []ast.Expr{s.Key, s.Value} {
+				if e != nil {
+					delete(consts, objOf(hinfo, e))
+				}
+			}
+		}
+		return true
+	})
+	if len(consts) == 0 {
+		return h, all
+	}
+	env := func(e ast.Expr) (constant.Value, bool) {
+		if id, ok := unparen(e).(*ast.Ident); ok {
+			if v, has := consts[hinfo.Uses[id]]; has {
+				return v, true
+			}
+		}
+		return nil, false
+	}
+	g := ix.FG(h)
+	seen := g.ReachUnder(env)
+	return h, func(n ast.Node) bool {
+		x := g.NodeOf(n)
+		return x == nil || seen[x]
+	}
+}
+
+// fieldStore is an effective store `X.F = rhs` performed by a function body: written there directly, or by a declared helper of
+// the package called from it (one level) whose body stores one of its parameters into the field — then Rhs is the argument the
+// caller passes for that parameter, so the rule judges the value in the caller's terms. Mapped is false when the helper stores
+// something other than a parameter (Rhs is then the helper's own expression).
+type fieldStore struct {
+	Field  *types.Var
+	Owner  types.Type // type of the value whose field is stored
+	Rhs    ast.Expr
+	At     ast.Node
+	Helper *FuncInfo
+	Mapped bool
+}
+
+func (ix *PkgIndex) fieldStores(fn *FuncInfo, body ast.Node) []fieldStore {
+	info := fn.Info()
+	var out []fieldStore
+	direct := func(b ast.Node, emit func(f *types.Var, owner types.Type, rhs ast.Expr, at ast.Node)) {
+		inspectNoLit(b, func(nd ast.Node) bool {
+			as, ok := nd.(*ast.AssignStmt)
+			if !ok || len(as.Lhs) != len(as.Rhs) {
+				return true
+			}
+			for i, l := range as.Lhs {
+				if sel, isSel := unparen(l).(*ast.SelectorExpr); isSel {
+					if fv, _ := fieldOf(info, sel); fv != nil {
+						emit(fv, info.TypeOf(sel.X), as.Rhs[i], as)
+					}
+				}
+			}
+			return true
+		})
+	}
+	direct(body, func(f *types.Var, owner types.Type, rhs ast.Expr, at ast.Node) {
+		out = append(out, fieldStore{Field: f, Owner: owner, Rhs: rhs, At: at, Mapped: true})
+	})
+	inspectNoLit(body, func(nd ast.Node) bool {
+		call, ok := nd.(*ast.CallExpr)
+		if !ok || call.Ellipsis.IsValid() {
+			return true
+		}
+		h := ix.declByObj(callee(info, call))
+		if h == nil || h == fn || h.Body() == nil {
+			return true
+		}
+		ps := h.Obj.Type().(*types.Signature).Params()
+		direct(h.Body(), func(f *types.Var, owner types.Type, rhs ast.Expr, at ast.Node) {
+			st := fieldStore{Field: f, Owner: owner, Rhs: rhs, At: call, Helper: h}
+			for j := 0; j < ps.Len() && j < len(call.Args); j++ {
+				if sameVar(info, rhs, ps.At(j)) && !assignedIn(info, h.Body(), ps.At(j)) {
+					st.Rhs, st.Mapped = call.Args[j], true
+				}
+			}
+			out = append(out, st)
+		})
+		return true
+	})
+	return out
+}
+
+// assignedIn: is variable v written (assigned, incremented, ranged into) or its address taken anywhere in body?
+func assignedIn(info *types.Info, body ast.Node, v types.Object) bool {
+	hit := false
+	ast.Inspect(body, func(n ast.Node) bool {
+		switch s := n.(type) {
+		case *ast.AssignStmt:
+			for _, l := range s.Lhs {
+				if id, ok := unparen(l).(*ast.Ident); ok && info.Uses[id] == v {
+					hit = true
+				}
+			}
+		case *ast.IncDecStmt:
+			if objOf(info, s.X) == v {
+				hit = true
+			}
+		case *ast.UnaryExpr:
+			if s.Op == token.AND && objOf(info, s.X) == v {
+				hit = true
+			}
+		case *ast.RangeStmt:
+			for _, e := range []ast.Expr{s.Key, s.Value} {
+				if e != nil && objOf(info, e) == v {
+					hit = true
+				}
+			}
+		}
+		return !hit
+	})
+	return hit
+}
+
+// lowerBoundLoop recognises the canonical hand-written lower-bound binary search — the body of sort.Search written out:
+//
+//	lo, hi := 0, n
+//	for lo < hi {
+//		mid := int(uint(lo+hi) >> 1)      // or (lo+hi)/2, (lo+hi)>>1, lo+(hi-lo)/2
+//		if C(mid) { lo = mid + 1 } else { hi = mid }     // or the arms swapped
+//	}
+//
+// and returns the variable holding the result (lo), the upper limit n, the probe variable mid and the predicate "the answer is
+// at or left of mid" as (cond, pol): cond with polarity pol (+1 as written, -1 negated) is what sort.Search's closure would return.
+// Nothing else may be in the loop. The statement before the loop must initialise lo to 0 and hi to n.
+func lowerBoundLoop(info *types.Info, block []ast.Stmt, i int) (lo types.Object, n ast.Expr, mid types.Object, cond ast.Expr, pol int, ok bool) {
+	loop, isFor := block[i].(*ast.ForStmt)
+	if !isFor || loop.Init != nil || loop.Post != nil || loop.Cond == nil || i == 0 || len(loop.Body.List) != 2 {
+		return
+	}
+	be, isB := unparen(loop.Cond).(*ast.BinaryExpr)
+	if !isB || be.Op != token.LSS {
+		return
+	}
+	lo, hi := objOf(info, be.X), objOf(info, be.Y)
+	if lo == nil || hi == nil || lo == hi {
+		return
+	}
+	// initialisation: lo, hi := 0, n  (or two statements)
+	loInit, hiInit := false, false
+	for j := i - 1; j >= 0 && j >= i-2; j-- {
+		as, isAs := block[j].(*ast.AssignStmt)
+		if !isAs || len(as.Lhs) != len(as.Rhs) {
+			break
+		}
+		for k, l := range as.Lhs {
+			switch objOf(info, l) {
+			case lo:
+				if v, isC := constInt(info, as.Rhs[k]); isC && v == 0 {
+					loInit = true
+				}
+			case hi:
+				hiInit, n = true, as.Rhs[k]
+			}
+		}
+	}
+	if !loInit || !hiInit {
+		return
+	}
+	// mid := …
+	ms, isAs := loop.Body.List[0].(*ast.AssignStmt)
+	if !isAs || ms.Tok != token.DEFINE || len(ms.Lhs) != 1 || len(ms.Rhs) != 1 {
+		return
+	}
+	mid = objOf(info, ms.Lhs[0])
+	isLo := func(e ast.Expr) bool { return sameVar(info, e, lo) }
+	isHi := func(e ast.Expr) bool { return sameVar(info, e, hi) }
+	isSum := func(e ast.Expr) bool {
+		b, ok := unparen(e).(*ast.BinaryExpr)
+		return ok && b.Op == token.ADD && ((isLo(b.X) && isHi(b.Y)) || (isHi(b.X) && isLo(b.Y)))
+	}
+	halves := func(e ast.Expr, inner func(ast.Expr) bool) bool {
+		b, ok := unparen(e).(*ast.BinaryExpr)
+		if !ok || !inner(b.X) {
+			return false
+		}
+		v, isC := constInt(info, b.Y)
+		return isC && ((b.Op == token.QUO && v == 2) || (b.Op == token.SHR && v == 1))
+	}
+	stripConv := func(e ast.Expr) ast.Expr {
+		for {
+			c, ok := unparen(e).(*ast.CallExpr)
+			if !ok || len(c.Args) != 1 {
+				return unparen(e)
+			}
+			if tv, has := info.Types[c.Fun]; !has || !tv.IsType() {
+				return unparen(e)
+			}
+			e = c.Args[0]
+		}
+	}
+	midOK := false
+	m := stripConv(ms.Rhs[0])
+	switch {
+	case halves(m, func(x ast.Expr) bool { return isSum(stripConv(x)) }):
+		midOK = true
+	default:
+		// lo + (hi-lo)/2
+		if b, isB := m.(*ast.BinaryExpr); isB && b.Op == token.ADD && isLo(b.X) {
+			midOK = halves(b.Y, func(x ast.Expr) bool {
+				d, ok := unparen(x).(*ast.BinaryExpr)
+				return ok && d.Op == token.SUB && isHi(d.X) && isLo(d.Y)
+			})
+		}
+	}
+	if !midOK {
+		return
+	}
+	ifs, isIf := loop.Body.List[1].(*ast.IfStmt)
+	if !isIf || ifs.Init != nil || ifs.Else == nil || len(ifs.Body.List) != 1 {
+		return
+	}
+	els, isBlk := ifs.Else.(*ast.BlockStmt)
+	if !isBlk || len(els.List) != 1 {
+		return
+	}
+	// which arm moves right (lo = mid + 1) and which moves left (hi = mid)
+	kind := func(st ast.Stmt) string {
+		as, ok := st.(*ast.AssignStmt)
+		if !ok || as.Tok != token.ASSIGN || len(as.Lhs) != 1 || len(as.Rhs) != 1 {
+			return ""
+		}
+		if isLo(as.Lhs[0]) {
+			if b, isB := unparen(as.Rhs[0]).(*ast.BinaryExpr); isB && b.Op == token.ADD {
+				v, isC := constInt(info, b.Y)
+				if sameVar(info, b.X, mid) && isC && v == 1 {
+					return "right"
+				}
+			}
+		}
+		if isHi(as.Lhs[0]) && sameVar(info, as.Rhs[0], mid) {
+			return "left"
+		}
+		return ""
+	}
+	a, b := kind(ifs.Body.List[0]), kind(els.List[0])
+	switch {
+	case a == "right" && b == "left":
+		return lo, n, mid, ifs.Cond, -1, true
+	case a == "left" && b == "right":
+		return lo, n, mid, ifs.Cond, 1, true
+	}
+	return
+}
